@@ -25,6 +25,8 @@
 (*                         planned set is empty                               *)
 (*   TieBreakByOrder       of two equally loaded shards scraping the same target  *)
 (*                         in the same state, the later one drops its copy       *)
+(*   ZeroNeedsPlace        an unplaced target whose estimate is 0 / 0 counts as needed  *)
+(*                         space (1), so that a shard is requested for it                *)
 (*   RevertOrphanTransfer  an in_transfer copy (scraped MinWait times) that no other   *)
 (*                         in-sync shard holds is put back to normal state         *)
 (*   TooBigFirst           relief stops at a too big target before looking at  *)
@@ -34,7 +36,7 @@
 (***************************************************************************)
 EXTENDS Integers, Sequences, FiniteSets, TLC, SequencesExt
 
-CONSTANTS MinWait, HeadReliefChecksProc, TooBigUsesTotal, EarlyByShardCount, TailNeedsEmpty, TooBigFirst, TieBreakByOrder, RevertOrphanTransfer,
+CONSTANTS ZeroNeedsPlace, MinWait, HeadReliefChecksProc, TooBigUsesTotal, EarlyByShardCount, TailNeedsEmpty, TooBigFirst, TieBreakByOrder, RevertOrphanTransfer,
           InputSet            \* set of input records explored by this run
 
 VARIABLES in,        \* the input record (constant during a behaviour)
@@ -288,7 +290,9 @@ Assign ==
                           fit == {i \in Shards : Room(i, e)}
                       IN /\ vis' = vis \cup {t}
                          /\ IF fit = {}
-                              THEN /\ need' = [head |-> need.head + e.series, proc |-> need.proc + e.total]
+                              THEN /\ need' = [head |-> need.head + e.series,
+                                                 \* a target that exposes nothing (0 / 0) still needs a place
+                                                 proc |-> need.proc + (IF ZeroNeedsPlace /\ e.series = 0 /\ e.total = 0 THEN 1 ELSE e.total)]
                                    /\ UNCHANGED <<pl, ld>>
                               ELSE \E i \in (IF Opt.maxIdle # 0 THEN {MinOf(fit)} ELSE fit) :
                                      /\ ld' = [ld EXCEPT ![i] = [head |-> @.head + e.series, proc |-> @.proc + e.total]]
@@ -371,7 +375,7 @@ Clamp ==
   /\ UNCHANGED <<in, ch, pl, ld, idl, need, cur, vis, tot, sps, reqs, posts, scales>>
 
 (* A.9 *)
-NewTargets(i) == {[t |-> t, state |-> pl[i][t].state, series |-> pl[i][t].series] :
+NewTargets(i) == {[t |-> t, state |-> pl[i][t].state, series |-> pl[i][t].series, total |-> pl[i][t].total] :
                     t \in (DOMAIN pl[i]) \cap Active}
 NeedUpdate(i) ==
   LET new == (DOMAIN pl[i]) \cap Active
